@@ -246,10 +246,15 @@ func runC11(c *sim.Ctx) *sim.Violation {
 		k0 := t.Int(6)
 		var name string
 		canon0 := drv.Observe(p).Canon()
+		raw0 := drv.RawAccessors(p)
 		if pi := sim.Guard(func() { name = readOnlyOp(c, p, k0) }); pi == nil {
 			if f, wv, gv := ref.FirstDiff(canon0, drv.Observe(p).Canon()); f != "" {
 				return sim.V("C11/"+typ+"/first-"+name+"-changed-accessor/"+f,
 					"the first %s on a freshly %s %s packet changed accessor %s from %q to %q", name, how, typ, f, wv, gv)
+			}
+			if was, now, d := drv.RawDiff(raw0, drv.RawAccessors(p)); d {
+				return sim.V("C11/"+typ+"/first-"+name+"-changed-accessor/"+rawName(was, now),
+					"the first %s on a freshly %s %s packet changed what an accessor returns: %s -> %s", name, how, typ, was, now)
 			}
 			if drv.DeepHash(p) != deep0 {
 				// memory changed that no accessor shows: C11 speaks about accessors and
@@ -378,6 +383,7 @@ func runC11(c *sim.Ctx) *sim.Violation {
 		}
 	}
 	canon0 := drv.Observe(p).Canon()
+	raw0 := drv.RawAccessors(p)
 	deep0 := drv.DeepHash(p)
 	n := 1 + t.Int(12)
 	hist := ""
@@ -396,6 +402,9 @@ func runC11(c *sim.Ctx) *sim.Violation {
 		}
 		if f, wv, gv := ref.FirstDiff(canon0, drv.Observe(p).Canon()); f != "" {
 			return sim.V(fmt.Sprintf("C11/%s/op-%s-changed-accessor/%s", typ, op, f), "after read-only history [%s] accessor %s changed from %q to %q\n%s", hist, f, wv, gv, desc())
+		}
+		if was, now, d := drv.RawDiff(raw0, drv.RawAccessors(p)); d {
+			return sim.V(fmt.Sprintf("C11/%s/op-%s-changed-accessor/%s", typ, op, rawName(was, now)), "after read-only history [%s] an accessor returns something else: %s -> %s\n%s", hist, was, now, desc())
 		}
 		if drv.DeepHash(p) != deep0 {
 			// no accessor shows it and (checked below) the bytes stay the same: not C11's
@@ -488,4 +497,16 @@ var C11 = &sim.Scenario{
 	Extra: func(th bool, counts map[string]int64) map[string]interface{} {
 		return map[string]interface{}{"map_ranges_behind_the_seam": mq.VerifMapRanges, "clock_uses_behind_the_seam": mq.VerifClockUses, "unseamed_nondeterminism_sources_in_the_library": mq.VerifUnseamed, "runs_compared_with_child_processes": len(c11ChildOut)}
 	},
+}
+
+// rawName is the accessor a RawAccessors line speaks about.
+func rawName(was, now string) string {
+	l := was
+	if l == "" {
+		l = now
+	}
+	if i := strings.IndexAny(l, "=["); i > 0 {
+		l = l[:i]
+	}
+	return strings.TrimSuffix(l, ".len")
 }
